@@ -13,6 +13,9 @@ use std::path::PathBuf;
 #[derive(Clone, Debug, Serialize, Deserialize)]
 pub struct Case {
 	pub base: u8,
+	/// 0 none; 1: wallet 0 starts with a locked pending send in EACH of its two accounts
+	#[serde(default)]
+	pub preset: u8,
 	pub ops: Vec<Op>,
 }
 
@@ -42,6 +45,7 @@ fn op_strategy() -> BoxedStrategy<Op> {
 		2 => any::<u16>().prop_map(|s| Op::FinalizeInvoice { s }),
 		5 => (any::<u16>(), any::<u16>()).prop_map(|(w, acct)| Op::SwitchAccount { w, acct }),
 		5 => any::<u16>().prop_map(|s| Op::FinalizeTampered { s }),
+		4 => any::<u16>().prop_map(|s| Op::RefinalizeOtherReply { s }),
 	]
 	.boxed()
 }
@@ -180,8 +184,8 @@ impl Prop for C03 {
 	}
 	fn strategy(&self, tier: Tier) -> BoxedStrategy<Case> {
 		let n = tier.pick(16usize, 26usize);
-		(0u8..3, prop::collection::vec(op_strategy(), 4..n))
-			.prop_map(|(base, ops)| Case { base, ops })
+		(0u8..3, prop_oneof![3 => Just(0u8), 1 => Just(1u8)], prop::collection::vec(op_strategy(), 4..n))
+			.prop_map(|(base, preset, ops)| Case { base, preset, ops })
 			.boxed()
 	}
 	fn rule(&self) -> String {
@@ -207,6 +211,18 @@ impl C03 {
 	fn run_case(&mut self, c: &Case, dir: &PathBuf, out: &mut Outcome) -> Result<(), String> {
 		let mut sim = base::open_copy(&self.bases[c.base as usize % self.bases.len()], dir)?;
 		sim.strict = false;
+		if c.preset == 1 {
+			// a locked pending send in each account of wallet 0 (on the balanced base their log ids coincide)
+			for a in 0..ACCOUNTS.len() {
+				let _ = sim.switch_account(0, a);
+				let args = SendArgs { amount: AmountPick::Frac(3000), use_all: false, ..SendArgs::default() };
+				if let Ok(si) = sim.init_send(0, 1, &args) {
+					let _ = sim.lock(si);
+				}
+			}
+			let _ = sim.switch_account(0, 0);
+			out.class("preset:two-accounts-locked");
+		}
 		for op in &c.ops {
 			let views_before = sim.views();
 			let deep_before: Vec<serde_json::Value> = match op {
@@ -217,6 +233,15 @@ impl C03 {
 			};
 			let r = sim.apply(op);
 			out.class(format!("op:{}:{}", r.kind, match &r.result { Some(Ok(_)) => "ok", Some(Err(_)) => "err", None => "noop" }));
+			if r.kind == "refinalize-other-reply" {
+				if let Some(e) = r.err() {
+					if e.contains("accepted") {
+						out.fail("c03:finalized-slate-finalized-again", format!("{:?}: {}", op, e));
+					}
+				} else if r.ok() {
+					out.nontrivial = true;
+				}
+			}
 			if r.kind == "finalize-tampered" {
 				out.nontrivial = true;
 				if let Some(e) = r.err() {
